@@ -215,3 +215,22 @@ def expand_locals(f, e, depth=0):
                     return expand_locals(f, bs[0][1], depth + 1)
             return n
     return X().visit(copy.deepcopy(e))
+
+
+def tree_order(root):
+    """{id(node): position} in depth-first pre-order of the tree below `root` - the textual order of a function's statements,
+    independent of line numbers (which canonicalisation keeps from wherever a statement was moved from)."""
+    pos = {}
+
+    def go(n):
+        pos[id(n)] = len(pos)
+        for c in ast.iter_child_nodes(n):
+            go(c)
+    go(root)
+    return pos
+
+
+def comes_before(root, a, b):
+    """Does node `a` come before node `b` in the tree below `root`?"""
+    pos = tree_order(root)
+    return id(a) in pos and id(b) in pos and pos[id(a)] < pos[id(b)]
